@@ -90,6 +90,7 @@ type Run struct {
 
 	oracleSeq int
 	simStart  time.Time
+	acme      *acmeState
 	// per-reconcile observations
 	reconciles          int
 	or                  OracleSet
@@ -228,9 +229,15 @@ func (r *Run) settle() { synctestWait() }
 func (r *Run) runGate(g *rt.ParkedGate) {
 	r.trace("release %s", g.Name)
 	r.probe("gate_" + g.Name)
+	if r.acme != nil {
+		r.acme.curGate = g.Name
+	}
 	done := r.rt.Release(g)
 	<-done
 	r.settle()
+	if r.acme != nil {
+		r.acme.curGate = ""
+	}
 }
 
 // advance moves the fake clock.
